@@ -56,6 +56,8 @@ class Contract:
         # objects (expressions over the function's parameters) that opaque callables cannot reach: all their fields
         # survive an opaque call made while this function runs.  An ASSUMPTION about the caller (recorded as such).
         self.opaque_keeps: list[str] = kw.pop("opaque_keeps", [])
+        # region (block) contract: {"anchor": "<statement text>[#n]", "span": k}; key is "Cls.method@label"
+        self.region: dict = kw.pop("region", None)
         self.specialize: dict[str, list] = kw.pop("specialize", {})  # param -> concrete values (case split, completeness proved)  # labelled assumptions (listed in evidence)
         if kw:
             raise TypeError("unknown contract keys %s for %s" % (list(kw), key))
